@@ -175,20 +175,29 @@ func (o lexOracle) skipComment(i int) int {
 
 func isWS(c byte) bool { return c == ' ' || c == '\t' || c == '\n' || c == '\r' }
 
-func (o lexOracle) gapOK(i, j int, allowWS bool) bool {
-	for i <= j {
-		if allowWS && isWS(o.ch(i)) {
+// gapOK: whitespace is skipped only in code mode, i.e. after a non-text token and before any comment (a comment
+// switches the lexer back to text mode); a gap after a text token holds comments only.
+func (o lexOracle) gapOK(i, j int, afterText, beforeText bool) bool {
+	start := i
+	if !afterText {
+		for i <= j && isWS(o.ch(i)) {
 			i++
-			continue
 		}
+	}
+	comments := 0
+	for i <= j {
 		if o.ch(i) == '{' && o.ch(i+1) == '{' && o.ch(i+2) == '-' && o.ch(i+3) == '-' {
 			k := o.skipComment(i + 2)
 			if k == 0 || k-1 > j {
 				return false
 			}
 			i = k
+			comments++
 			continue
 		}
+		return false
+	}
+	if !afterText && beforeText && start <= j && comments == 0 {
 		return false
 	}
 	return true
@@ -238,11 +247,11 @@ func tilingViolation(src []byte, ts []rtok) (kind, msg string) {
 		if a.E >= b.S {
 			return "order", fmt.Sprintf("token %d %s ends at %d, token %d %s starts at %d", k, a.T, a.E, k+1, b.T, b.S)
 		}
-		if !o.gapOK(a.E+1, b.S-1, a.T != "HTML" && b.T != "HTML") {
+		if !o.gapOK(a.E+1, b.S-1, a.T == "HTML", b.T == "HTML") {
 			return "gap", fmt.Sprintf("bytes %q between token %d %s and token %d %s belong to no token", src[a.E:b.S-1], k, a.T, k+1, b.T)
 		}
 	}
-	if len(ts) > 0 && ts[0].S > 1 && !o.gapOK(1, ts[0].S-1, false) {
+	if len(ts) > 0 && ts[0].S > 1 && !o.gapOK(1, ts[0].S-1, true, false) {
 		return "gap", fmt.Sprintf("bytes %q before the first token belong to no token", src[:ts[0].S-1])
 	}
 	// cursor containment: every byte cursor (and the end cursor) lies in exactly the covering token's range
